@@ -386,6 +386,46 @@ for s_i in range(nsetups):
                 if not np.array_equal(rw.scattering_angles_dict[path], rg.signed_inc_angle(-1), equal_nan=True):
                     chk.violation("views:scat-angle", f"scattering angles of path {name} are not signed_inc_angle(-1)", dict(setup=s_i, stage=stage, path=name))
 
+# ---- (a2+) ray_weights_for_views on SUBSETS of the views (one view, two views: a model restricted to the views of interest):
+#      paths used on receive only / on transmit only get their own weights, factor by factor
+for s_i in range(3 if Q else 20):
+    setup = arimgen.immersion_setup(rng, max_refl=int(rng.integers(0, 2)), wall_points=int(rng.integers(40, 120)), attenuation=True,
+                                    numelements=int(rng.integers(2, 5)), numscat=int(rng.integers(1, 4)))
+    views, freq = setup["views"], setup["freq"]
+    width = float(rng.uniform(0.2e-3, 1.0e-3))
+    vnames = list(views)
+    for _ in range(6 if Q else 12):
+        pick = [vnames[int(i)] for i in rng.choice(len(vnames), size=int(rng.integers(1, 3)), replace=False)]
+        sub = {vn: views[vn] for vn in pick}
+        sw = SWITCHES[0] if rng.random() < 0.5 else SWITCHES[int(rng.integers(0, 16))]
+        rw = bim.ray_weights_for_views(sub, freq, width, use_directivity=sw[0], use_transrefl=sw[1], use_beamspread=sw[2],
+                                       use_attenuation=sw[3], save_debug=True)
+        evaluations += 1
+        chk.count(views_subset=len(pick))
+        nontrivial.add(("views-subset", s_i, tuple(pick)))
+        want_tx, want_rx = {v.tx_path for v in sub.values()}, {v.rx_path for v in sub.values()}
+        bad_ = None
+        if set(rw.tx_ray_weights_dict) != want_tx or set(rw.rx_ray_weights_dict) != want_rx:
+            bad_ = "the dictionaries do not hold exactly the tx / rx paths of the requested views"
+        for side, dct, dbg, fn, wanted in (("tx", rw.tx_ray_weights_dict, rw.tx_ray_weights_debug_dict, bim.tx_ray_weights, want_tx),
+                                           ("rx", rw.rx_ray_weights_dict, rw.rx_ray_weights_debug_dict, bim.rx_ray_weights, want_rx)):
+            if bad_:
+                break
+            for pth in wanted:
+                ref = call_weights(fn, pth, arim.ray.RayGeometry.from_path(pth), freq, width, sw)
+                if isinstance(ref, Exception):
+                    continue
+                if not np.array_equal(ref[0], dct[pth], equal_nan=True):
+                    bad_ = f"{side} weights of path {pth.name} are not {side}_ray_weights(path)"
+                for k in FACTORS:
+                    if bad_ is None and not np.array_equal(np.asarray(ref[1][k]), np.asarray(dbg[pth][k]), equal_nan=True):
+                        bad_ = f"{side} factor '{k}' of path {pth.name} is not the one {side}_ray_weights(path) computes"
+        if bad_:
+            chk.violation("views-subset", f"ray_weights_for_views on the views {pick}: {bad_}",
+                          dict(views=pick, switches=sw, frequency=freq, width=width,
+                               how="arimgen.immersion_setup(...attenuation=True); seed and tier replay it"))
+            break
+
 # ---- (a2'') the weights of a ray do not depend on HOW MANY rays are stored with it nor on their memory order:
 #      an image-sized target set (more points than a 16-bit index can address) against the same targets traced a few at a
 #      time, and Fortran-ordered rays (ray_tracing(convert_to_fortran_order=True), what the TFM functions ask for)
